@@ -28,6 +28,32 @@ var derivedLeaves = map[string]string{
 	"lindell22-bip340|sign/Lindell22SigningRound1BROADCAST:|.zeroR1.verificationVector.verification_vector.data[0].compressedBytes": "entry 0 of the verification vector of a sharing of zero is the identity by construction (exact path: only entry 0)",
 	"dkls23-bbot|sign/DKLS23SignBBOTRound3BROADCAST:|.pk.compressedBytes":  "the public key share is [additive share + zero share]G: derived from the long-term share and the session seeds, not sampled",
 	"dkls23-softspoken|sign/DKLS23SignRound4BROADCAST:|.pk.compressedBytes": "the public key share is [additive share + zero share]G: derived from the long-term share and the session seeds, not sampled",
+	"redistribute|redist/RedistributeRound1BROADCAST:|.ZeroR1.verificationVector.verification_vector.data[0].compressedBytes": "entry 0 of the verification vector of a sharing of zero is the identity by construction (exact path: only entry 0)",
+	"redistribute|redist/RedistributeRound2BROADCAST:|.ZeroVerificationVector.verification_vector.data[0].compressedBytes":    "entry 0 of the aggregated zero-sharing verification vector is the identity by construction (exact path: only entry 0)",
+	"redistribute|redist/RedistributeRound2BROADCAST:|.PrevVerificationVector.verification_vector.data[*].compressedBytes":    "the verification vector of the existing sharing is long-term public data that every previous holder republishes",
+	"redistribute|redist/RedistributeRound2BROADCAST:|.PrevMSP.Matrix.data[*].fieldBytes":                                    "the matrix of the existing sharing's MSP is long-term public data",
+}
+
+// derivedPatterns: the same, for encodings that repeat one public value at several
+// paths (scenario, message, substring of the normalised path).
+var derivedPatterns = []struct{ scenario, cid, part, why string }{
+	{"lindell17-sign", "sign/Lindell17SignRound4UNICAST:", ".modulus.", "a Paillier ciphertext is encoded together with the modulus of its group (N, N^2: the primary's long-term public key); only the value part is random"},
+	{"lindell17-sign", "sign/Lindell17SignRound4UNICAST:", ".n.natPlus.", "a Paillier ciphertext is encoded together with the modulus of its group (N, N^2: the primary's long-term public key); only the value part is random"},
+}
+
+func isDerivedLeaf(scName, cid, path string) bool {
+	if _, ok := derivedLeaves[fmt.Sprintf("%s|%s|%s", scName, cid, cbor.NormPath(path))]; ok {
+		return true
+	}
+	if _, ok := derivedLeaves[fmt.Sprintf("%s|%s|%s", scName, cid, path)]; ok {
+		return true
+	}
+	for _, p := range derivedPatterns {
+		if p.scenario == scName && p.cid == cid && strings.Contains(cbor.NormPath(path), p.part) {
+			return true
+		}
+	}
+	return false
 }
 
 type c07Run struct {
@@ -187,9 +213,8 @@ func RunC07(rc *harness.RunCtx) harness.Outcome {
 				key := fmt.Sprintf("%s|%s|%s", scName, stripNS(w.CID), cbor.NormPath(l.Path))
 				exact := fmt.Sprintf("%s|%s|%s", scName, stripNS(w.CID), l.Path)
 				if bytes.Equal(o.Node.Bytes, l.Node.Bytes) {
-					_, d1 := derivedLeaves[key]
-					_, d2 := derivedLeaves[exact]
-					if derived := d1 || d2; derived {
+					_ = exact
+					if isDerivedLeaf(scName, stripNS(w.CID), l.Path) {
 						probes["derived_leaf_unchanged"]++
 						continue
 					}
@@ -291,10 +316,7 @@ func RunC07(rc *harness.RunCtx) harness.Outcome {
 				if scName == "gennaro" || scName == "canetti" || scName == "session" {
 					return fail("value-repeats-across-sessions", key, "party %d sent the same value at %s in two sessions with different random streams", i, l.Path)
 				}
-				if _, derived := derivedLeaves[key]; derived {
-					continue
-				}
-				if _, derived := derivedLeaves[fmt.Sprintf("%s|%s|%s", scName, stripNS(w.CID), l.Path)]; derived {
+				if isDerivedLeaf(scName, stripNS(w.CID), l.Path) {
 					continue
 				}
 				// signing sessions on the same key: only long-term public data may repeat
@@ -323,6 +345,9 @@ func c07Workload(scName string, heavy bool) harness.Workload {
 		EnumerateT: func(t *testing.T, tier string, seedInt int64, _ sim.Seed) ([]map[string]string, error) {
 			var cells []map[string]string
 			positions := []string{"0", "1", "2"}
+			if sc := c04Scenarios[scName](); sc.c07Pos != nil {
+				positions = sc.c07Pos
+			}
 			for _, sub := range c07Subs {
 				for pi, pos := range positions {
 					if tier != "thorough" && (heavy && pi > 0 || !heavy && pi > 1) {
@@ -347,6 +372,9 @@ func C07Workloads() []harness.Workload {
 		c07Workload("lindell22-bip340", false),
 		c07Workload("dkls23-bbot", true),
 		c07Workload("dkls23-softspoken", true),
+		c07Workload("aor", false),
+		c07Workload("redistribute", false),
+		c07Workload("lindell17-sign", true),
 		{Name: "paired-lindell17-dealer", Run: RunC07Lindell17, EnumerateT: func(t *testing.T, tier string, seedInt int64, _ sim.Seed) ([]map[string]string, error) {
 			return []map[string]string{{"sub": "hidden-source"}, {"sub": "sensitivity"}}, nil
 		}},
